@@ -455,6 +455,8 @@ def np_call(ev, name, args, kwargs, node):
         root = storage_root(as_v(ev, A[0]))
         if root is not None:
             ev.event("inplace", how="overwrite_input=", root=root, target="arg0", node=node, value=A[0])
+    if name in ("remainder", "mod", "floor_divide", "true_divide", "power", "negative", "positive") and name in ("remainder", "mod", "floor_divide") and len(A) >= 2:
+        return ev.binop("Mod" if name in ("remainder", "mod") else "FloorDiv", as_v(ev, A[0]), as_v(ev, A[1]), node)   # the ufunc forms of % and //
     if name == "dtype" and len(A) == 1:
         from .evalr import ExtV
         return A[0] if isinstance(A[0], ExtV) else App("dtype", (as_v(ev, A[0]),))   # np.dtype(float) is float wherever a dtype is expected
@@ -1015,6 +1017,16 @@ def call_method(ev, recv, name, args, kwargs, node):
     if name == "__getitem__" and len(args) == 1 and not kwargs:
         return getitem(ev, recv, args[0], node)
 
+    if isinstance(recv, Obj) and getattr(recv, "nt_fields", None) is not None:
+        if name == "_asdict" and not args and not kwargs:
+            return Dct({Const(f): recv.attrs[f] for f in recv.nt_fields})
+        if name == "_replace" and not args:
+            new = dict((f, recv.attrs[f]) for f in recv.nt_fields)
+            for k, v_ in kwargs.items():
+                if k not in new:
+                    raise AnalysisError("_replace: unknown field %s" % k)
+                new[k] = v_
+            return ev.construct(recv.cls, [], new, node) if hasattr(ev, "construct") else ev.instantiate(recv.cls, [], new, node)
     if isinstance(recv, ListElem):
         if name == "append":
             loops = list(getattr(ev, "loop_stack", []))
